@@ -113,8 +113,19 @@ fn variants(t: &mut Tape, plan: &XzPlan) -> Vec<(XzPlan, String, String)> {
 fn exec_one(sc: &Scenario, ctx: &mut Ctx) -> Vec<Violation> {
     ctx.begin(sc);
     let mut out = Vec::new();
-    let mut r: &[u8] = sc.b("input");
-    let v = call_decoder(EP_XZ, &mut r, &mut out, &OptSpec::default(), &RawSpec::default());
+    let (v, _) = run_with_reader(
+        EP_XZ,
+        sc.b("input"),
+        if sc.l("src_script").is_empty() { RK_SLICE } else { RK_SIM },
+        sc.l("src_script"),
+        crate::env::Faults::none(),
+        0,
+        &mut out,
+        &OptSpec::default(),
+        &RawSpec::default(),
+        0,
+        0,
+    );
     ctx.stats.eval(sc.hash(), true, 1);
     let locus = sc.note.split(" | ").next().unwrap_or("?").to_string();
     match &v {
@@ -160,9 +171,15 @@ impl Property for C18 {
     fn run(&self, t: &mut Tape, ctx: &mut Ctx) -> Vec<Violation> {
         let plan = gen_xz_plan(t, 300);
         let vs = variants(t, &plan);
+        let scripts: [Vec<u64>; 4] = [vec![], vec![1], vec![t.range(2, 9)], vec![t.range(1, 4), t.range(1, 40), 1]];
+        let mut case_no = t.below(4) as usize;
         for (p, locus, note) in vs {
             let built = build_xz(&p);
             let mut sc = Scenario::new("c18");
+            case_no += 1;
+            if !scripts[case_no % 4].is_empty() {
+                sc.set_l("src_script", scripts[case_no % 4].clone());
+            }
             sc.set_b("input", built.bytes);
             sc.note = format!("{} | {}", locus, note);
             let key: &'static str = match locus.split('=').next().unwrap_or("") {
